@@ -2,6 +2,8 @@
    file.  Only statements, each closed by `exact`, with Print Assumptions beneath. *)
 From Verif Require Import Base.
 From Verif.Validate Require Import Aty Add Gen Spec NoCrash Exact Reported RunReported.
+From Coq Require Import List.
+Import ListNotations.
 
 (* ---- never a crash ---- *)
 (* no Add of any of the 33 plugins indexes out of range / fails a type assertion, whatever
@@ -40,16 +42,21 @@ Theorem C09_unsupported_reported_gostring : forall t, has_unsup true false t = t
 Proof. exact unsupported_reported_gostring. Qed.
 Print Assumptions C09_unsupported_reported_gostring.
 
-(* ---- each Add accepts exactly the documented shapes (28 of the 33 plugins) ---- *)
+(* ---- each Add accepts exactly the documented shapes (30 of the 33 plugins) ---- *)
 Theorem C09_validate_exact_all_any_filter_takewhile : forall typs,
   add_pred typs = Ok <->
   exists t v, typs = [ASig (TCons t TNil) (TCons (ABasic KBool) TNil) v; ASlice t].
 Proof. exact validate_exact_pred. Qed.
 Print Assumptions C09_validate_exact_all_any_filter_takewhile.
-Theorem C09_validate_exact_clone_gostring_hash_keys_set_sort_unique : forall typs,
+Theorem C09_validate_exact_clone_keys_set_sort_unique : forall typs,
   add_one typs = Ok <-> exists t, typs = [t].
 Proof. exact validate_exact_one. Qed.
-Print Assumptions C09_validate_exact_clone_gostring_hash_keys_set_sort_unique.
+Print Assumptions C09_validate_exact_clone_keys_set_sort_unique.
+(* gostring and hash print the type of their argument: the untyped nil has none *)
+Theorem C09_validate_exact_gostring_hash : forall typs,
+  add_one_typed typs = Ok <-> exists t, typs = [t] /\ t <> ABasic KUNil.
+Proof. exact validate_exact_one_typed. Qed.
+Print Assumptions C09_validate_exact_gostring_hash.
 Theorem C09_validate_exact_compare_equal : forall typs,
   add_one_or_two typs = Ok <-> (exists t, typs = [t]) \/ (exists t, typs = [t; t]).
 Proof. exact validate_exact_one_or_two. Qed.
@@ -61,13 +68,16 @@ Theorem C09_validate_exact_curry_flip : forall typs,
   add_curry typs = Ok <-> exists p1 p2 ps rs, typs = [ASig (TCons p1 (TCons p2 ps)) rs false].
 Proof. exact validate_exact_curry. Qed.
 Print Assumptions C09_validate_exact_curry_flip.
-Theorem C09_validate_exact_dup : forall typs, add_dup typs = Ok <-> exists d t, typs = [AChan d t].
+(* dup, fmap, join and pipeline receive from their channels: no send only channel *)
+Theorem C09_validate_exact_dup : forall typs,
+  add_dup typs = Ok <-> exists d t, typs = [AChan d t] /\ d <> DSend.
 Proof. exact validate_exact_dup. Qed.
 Print Assumptions C09_validate_exact_dup.
 Theorem C09_validate_exact_mem : forall typs, add_mem typs = Ok <-> exists ps rs, typs = [ASig ps rs false].
 Proof. exact validate_exact_mem. Qed.
 Print Assumptions C09_validate_exact_mem.
-Theorem C09_validate_exact_tuple : forall typs, add_tuple typs = Ok <-> typs <> [].
+Theorem C09_validate_exact_tuple : forall typs,
+  add_tuple typs = Ok <-> typs <> [] /\ ~ In (ABasic KUNil) typs.
 Proof. exact validate_exact_tuple. Qed.
 Print Assumptions C09_validate_exact_tuple.
 Theorem C09_validate_exact_uncurry : forall typs,
@@ -96,10 +106,32 @@ Proof. exact validate_exact_traverse. Qed.
 Print Assumptions C09_validate_exact_traverse.
 Theorem C09_validate_exact_pipeline : forall typs,
   add_pipeline typs = Ok <->
-  exists a b c d1 d2 v1 v2,
-    typs = [ASig (TCons a TNil) (TCons (AChan d1 b) TNil) v1; ASig (TCons b TNil) (TCons (AChan d2 c) TNil) v2].
+  exists a b c d1 v1 v2,
+    typs = [ASig (TCons a TNil) (TCons (AChan d1 b) TNil) v1; ASig (TCons b TNil) (TCons (AChan DRecv c) TNil) v2]
+    /\ d1 <> DSend.
 Proof. exact validate_exact_pipeline. Qed.
 Print Assumptions C09_validate_exact_pipeline.
+Theorem C09_validate_exact_fmap : forall typs,
+  add_fmap typs = Ok <->
+  (exists e r v, typs = [ASig (TCons e TNil) (TCons r TNil) v; ASlice e]) \/
+  (exists k r v, typs = [ASig (TCons (ABasic KInt32) TNil) (TCons r TNil) v; ABasic k] /\ default_kind k = KString) \/
+  (exists e rs v er v', typs = [ASig (TCons e TNil) rs v; ASig TNil (TCons e (TCons er TNil)) v'] /\ is_error er = true) \/
+  (exists e r v d, typs = [ASig (TCons e TNil) (TCons r TNil) v; AChan d e] /\ d <> DSend).
+Proof. exact validate_exact_fmap. Qed.
+Print Assumptions C09_validate_exact_fmap.
+(* join: [][]T, []string, []chan T (not send only), (func() (.., error), error) as two arguments or
+   one multi-valued call, (chan | <-chan) of <-chan T, two or more channels over one element type
+   none of which is send only *)
+Theorem C09_validate_exact_join : forall typs,
+  add_join typs = Ok <->
+  (exists t, typs = [ASlice (ASlice t)]) \/
+  typs = [ASlice (ABasic KString)] \/
+  (exists d t, typs = [ASlice (AChan d t)] /\ d <> DSend) \/
+  (exists a b, (typs = [a; b] \/ exists r, typs = ATuple (TCons a (TCons b TNil)) :: r) /\ accepted_join_error a b) \/
+  (exists d t, typs = [AChan d (AChan DRecv t)] /\ d <> DSend) \/
+  (exists e ds, typs = map (fun d => AChan d e) ds /\ 2 <= length ds /\ ~ In DSend ds /\ not_chan e).
+Proof. exact validate_exact_join. Qed.
+Print Assumptions C09_validate_exact_join.
 Theorem C09_validate_exact_toerror : forall typs,
   add_toerror typs = Ok <->
   exists e ps rs, typs = [e; ASig ps rs false] /\ is_error e = true /\ alast rs = Some (ABasic KBool).
@@ -140,6 +172,19 @@ Theorem C09_gostring_ptr_swallow_refuted :
   gs_ptr_prefix (AChan DBoth (ABasic KInt)) = Ok /\ gs_stmt (APtr (AChan DBoth (ABasic KInt))) = Err.
 Proof. exact gostring_ptr_swallow_refuted_w. Qed.
 Print Assumptions C09_gostring_ptr_swallow_refuted.
+Theorem C09_sendonly_chan_refuted :
+  add_dup_prefix [AChan DSend (ABasic KInt)] = Ok /\
+  must_report PDup [AChan DSend (ABasic KInt)] = true /\
+  run_model PDup [AChan DSend (ABasic KInt)] = Err /\
+  run_model PDup [AChan DRecv (ABasic KInt)] = Ok.
+Proof. exact sendonly_chan_refuted_w. Qed.
+Print Assumptions C09_sendonly_chan_refuted.
+Theorem C09_untyped_nil_refuted :
+  add_one [ABasic KUNil] = Ok /\ hash_stmt (ABasic KUNil) = Ok /\
+  must_report PHash [ABasic KUNil] = true /\ run_model PHash [ABasic KUNil] = Err /\
+  run_model PHash [ABasic KUInt] = Ok.
+Proof. exact untyped_nil_refuted_w. Qed.
+Print Assumptions C09_untyped_nil_refuted.
 Theorem C09_minmax_unordered_refuted :
   minmax_elem_prefix (ABasic KBool) = Ok /\ is_ordered KBool = false /\
   minmax_elem_prefix (ABasic KUnsafePtr) = Ok /\
